@@ -764,7 +764,44 @@ pub fn c08_server_dropped_after_flush(rec: &mut Rec, rng: &mut Rng) {
     }
 }
 
+/// input that ends EXACTLY where the connection's 1024-byte buffer fills (once, twice): the server must not conclude
+/// anything from a read that came back full — the client is well-behaved and receives exactly the supplied answers
+pub fn c08_input_fills_buffer_exactly(rec: &mut Rec, rng: &mut Rng, total: usize) {
+    rec.case("input-fills-buffer-exactly");
+    rec.nontrivial();
+    let mut sim = Sim::new(rec, Cfg::base("C08"));
+    let a = sim.connect(rec);
+    sim.poll(rec);
+    // requests of 256 bytes each: "GET /cA/rJ HTTP/1.1\r\nX-Pad: pp…p\r\n\r\n"
+    let mut bytes = vec![];
+    while bytes.len() < total {
+        let j = sim.plans[a].next_req;
+        sim.plans[a].next_req += 1;
+        let t = tag(a, j);
+        let fixed = format!("GET {} HTTP/1.1\r\nX-Pad: \r\n\r\n", t).len();
+        let pad = 256 - fixed;
+        bytes.extend_from_slice(format!("GET {} HTTP/1.1\r\nX-Pad: {}\r\n\r\n", t, "p".repeat(pad)).as_bytes());
+        sim.plans[a].sent.push(t);
+    }
+    assert_eq!(bytes.len(), total);
+    sim.w.send(rec, a, &bytes);
+    for _ in 0..(total / 1024 + 3) {
+        sim.poll(rec);
+    }
+    while !sim.w.held.is_empty() {
+        sim.respond(rec, rng, 0);
+    }
+    drain_and_check_supplied(rec, &mut sim, "C08");
+    sim.settle(rec, rng);
+    common_checks(rec, &mut sim, "C08");
+    check_yield_once(rec, &sim);
+    sim.w.teardown();
+}
+
 pub fn c08(rec: &mut Rec, rng: &mut Rng, thorough: bool) {
+    for total in [1024usize, 2048, 3072] {
+        c08_input_fills_buffer_exactly(rec, rng, total);
+    }
     c08_server_dropped_after_flush(rec, rng);
     let n = if thorough { 3000 } else { 140 };
     for k in 0..n {
